@@ -85,13 +85,8 @@ func checkC07(e *Env) {
 			obs.Inc("default_source_calls_that_failed(unobservable)")
 			return nil
 		}
-		// this property is about WHERE the entropy comes from: the sentence is decoded without
-		// looking at its checksum (a wrong checksum or word count is C01/C02/C06's business)
+		// for the statistics the sentence is decoded without looking at its checksum
 		ent, decodable := e.Model.DecodeLoose(strings.Fields(out), int(op.L))
-		if !decodable {
-			obs.Inc("sentences_that_cannot_be_decoded(unobservable)")
-			return nil
-		}
 		if wrapper {
 			need := int(op.N) + int(op.N)/3
 			var delivered []byte
@@ -109,12 +104,24 @@ func checkC07(e *Env) {
 				e.Violate(&Violation{What: fmt.Sprintf("NewMnemonic(%d, %s) returned a mnemonic although crypto/rand.Reader delivered only %d bytes during the call: the output is not a function of that source's bytes (entropy %x)", op.N, ref.Names[op.L], total, ent),
 					Ops: []plan.Op{*op}, ChildEnv: []string{"VERIF_EARLYRAND=1"}, Observed: r})
 				return nil
-			case !bytes.Equal(delivered[:need], ent):
-				e.Violate(&Violation{What: fmt.Sprintf("NewMnemonic(%d, %s) encodes %x but crypto/rand.Reader delivered %x during the call: other data was mixed in or substituted", op.N, ref.Names[op.L], ent, delivered[:need]),
-					Ops: []plan.Op{*op}, ChildEnv: []string{"VERIF_EARLYRAND=1"}, Observed: r})
+			case out == e.Model.Enc(delivered[:need], int(op.L)):
+				// the sentence is the BIP39 encoding of exactly the bytes drawn during the call
+			case r.Out2 != "" && string(unhex(r.Out2)) == out:
+				// the sentence is what this tree's own NewMnemonicByEntropy makes of the delivered
+				// bytes (computed in the same process right after the call): it is a function of
+				// the source's bytes; that the encoder deviates from BIP39 is C01's business
+				obs.Inc("sentences_equal_to_the_tree's_own_encoding_of_the_delivered_bytes(encoder_deviates:C01)")
+				return nil
+			default:
+				e.Violate(&Violation{What: fmt.Sprintf("NewMnemonic(%d, %s) returned %s, which is neither the BIP39 sentence of the bytes crypto/rand.Reader delivered during the call (%x) nor what NewMnemonicByEntropy makes of them in the same process (%s): it decodes to %x, so other data was mixed in or substituted", op.N, ref.Names[op.L], preview(out), delivered[:need], preview(string(unhex(r.Out2))), ent),
+					Ops: []plan.Op{*op}, ChildEnv: []string{"VERIF_EARLYRAND=1"}, Expected: map[string]string{"out_hex": hxs(e.Model.Enc(delivered[:need], int(op.L)))}, Observed: r})
 				return nil
 			}
 			obs.Inc("calls_matched_against_interposed_crypto_rand_bytes")
+		}
+		if !decodable {
+			obs.Inc("sentences_that_cannot_be_decoded(unobservable_without_interposer)")
+			return nil
 		}
 		dist.Add(string(ent))
 		smp.Add(map[string]any{"process": p, "n": op.N, "language": ref.Names[op.L], "sentence": out, "entropy": hx(ent), "crypto_rand_reads": r.Reads})
@@ -372,6 +379,12 @@ func checkC07(e *Env) {
 					found = k
 					break
 				}
+			}
+			if found < 0 && res.Out2 != "" && string(unhex(res.Out2)) == got {
+				// what this tree's own encoder makes of the next delivered bytes (see above)
+				obs.Inc("sentences_equal_to_the_tree's_own_encoding_of_the_delivered_bytes(encoder_deviates:C01)")
+				consumed[w] += need
+				continue
 			}
 			if found < 0 {
 				viol(fmt.Sprintf("worker %d call %d: NewMnemonic(%d, %s) = %s does not encode any %d consecutive bytes that crypto/rand.Reader delivered to this goroutine after its previous call (%d bytes delivered to it in total)", w, res.I, op.N, ref.Names[op.L], preview(got), need, len(delivered[w])), res)
